@@ -394,6 +394,34 @@ fn stall_parts(rep: &mut Report, props: &[&str], checks: u32, windows: &[usize],
             }
         }
     }
+    // three peers, one of them drops early; afterwards a still connected peer starves the first
+    for &w in windows {
+        if thin && w % 3 == 1 {
+            continue;
+        }
+        for sparse in [false, true] {
+            if w == 0 && sparse {
+                continue;
+            }
+            let mut base = base_scn("stall-after-drop", "1+1+1", w, 0, sparse, Pred::RepeatLast, Program::Changing, 1);
+            for p in base.peers.iter_mut() {
+                p.notify_ms = 50;
+                p.timeout_ms = 150;
+            }
+            let (a, b) = (base.peers[0].addr, base.peers[1].addr);
+            base.script.push(ScriptItem { round: 2, node: 2, action: Action::Die });
+            for len in [w as i32 + 2, 2 * w as i32 + 6, 3 * w as i32 + 25] {
+                let mut s = base.clone();
+                let start = 40;
+                s.outages.push(Outage { from: b, to: a, start, len, classes: CLASS_INPUT });
+                s.name = format!("{} third peer dies@2, then input-outage start={start} len={len}", base.name);
+                s.horizon = start + len + 4;
+                s.probe = 30;
+                s.checks = CK_C02 | CK_C03 | CK_C04;
+                scns.push(s);
+            }
+        }
+    }
     let n = scns.len();
     let cfg = ExploreCfg { k: Some(0), wall: Duration::from_secs(if thorough { 900 } else { 40 }), ..Default::default() };
     let out = explore(&scns, &cfg, judge);
